@@ -151,3 +151,58 @@ def t11_witness(t, v, obj):
     except Exception:  # noqa
         return True
     return False
+
+
+def _has_default_member(t):
+    """a DEFAULT member anywhere inside the type"""
+    b = gen.base_of(t)
+    if b[0] in ('seq', 'set', 'choice'):
+        return any(kind == 'd' or _has_default_member(ft) for kind, dflt, ft in b[1])
+    if b[0] in ('seqof', 'setof'):
+        return _has_default_member(b[1])
+    return False
+
+
+def nested_default_in_constructed_default(t):
+    """finding T11, second manifestation: a DEFAULT member of constructed type whose own type has a DEFAULT member
+    somewhere inside - two records denoting the same value (that inner member set explicitly / left out) then compare
+    unequal, and the encoder writes the outer member instead of leaving it out"""
+    b = gen.base_of(t)
+    if b[0] in ('seq', 'set', 'choice'):
+        for kind, dflt, ft in b[1]:
+            if kind == 'd' and gen.base_of(ft)[0] in ('seq', 'set', 'seqof', 'setof', 'choice') and _has_default_member(ft):
+                return True
+            if nested_default_in_constructed_default(ft):
+                return True
+        return False
+    if b[0] in ('seqof', 'setof'):
+        return nested_default_in_constructed_default(b[1])
+    return False
+
+
+def _has_optional_member(t):
+    b = gen.base_of(t)
+    if b[0] in ('seq', 'set'):
+        return any(kind == 'o' or _has_optional_member(ft) for kind, dflt, ft in b[1])
+    if b[0] == 'choice':
+        return any(_has_optional_member(ft) for kind, dflt, ft in b[1])
+    if b[0] in ('seqof', 'setof'):
+        return _has_optional_member(b[1])
+    return False
+
+
+def optional_in_constructed_default(t):
+    """finding T11, third manifestation: a DEFAULT member of constructed type whose own type has an OPTIONAL member
+    somewhere inside - a read of that absent member leaves a placeholder in the stored components, after which the
+    record no longer compares equal to its default"""
+    b = gen.base_of(t)
+    if b[0] in ('seq', 'set', 'choice'):
+        for kind, dflt, ft in b[1]:
+            if kind == 'd' and gen.base_of(ft)[0] in ('seq', 'set', 'seqof', 'setof', 'choice') and _has_optional_member(ft):
+                return True
+            if optional_in_constructed_default(ft):
+                return True
+        return False
+    if b[0] in ('seqof', 'setof'):
+        return optional_in_constructed_default(b[1])
+    return False
